@@ -270,7 +270,10 @@ Wants(ctor, a) ==
           Ws("codes", CASE ph = "offer"  -> JoinC(Drop(cs, {"1FC9", "10E0"}) \o (IF Truthy(oem) THEN <<"10E0">> ELSE <<>>) \o <<"1FC9">>)
                         [] ph = "accept" -> JoinC(cs)
                         [] OTHER         -> IF cs = <<>> THEN "" ELSE cs[1])}
-         \cup (IF ph \in {"accept", "confirm"} THEN {Ws("bidx", IF Truthy(G(a, "idx")) THEN G(a, "idx").s ELSE "00")} ELSE {})
+         \* an idx that was asked for must be the one the frame carries, whatever the phase (an offer that is given
+         \* one is outside the domain: if it is built all the same, dropping the idx silently is the harm of clause d)
+         \cup (IF ph \in {"accept", "confirm"} \/ Truthy(G(a, "idx"))
+               THEN {Ws("bidx", IF Truthy(G(a, "idx")) THEN G(a, "idx").s ELSE "00")} ELSE {})
     [] ctor = "set_fan_mode" ->       \* a name must come back as that name, a number/code as that index
          LET m == G(a, "fan_mode") IN
          IF m.t = "str" /\ m.s \notin FanCodes THEN {Ws("fan_mode", m.s)} ELSE {Ws("_mode_idx", FanCode(a))}
